@@ -50,8 +50,36 @@ CHECKS = {
     "C07": _world("TestC07", _R["C07"], 600, 40000),
     "C08": _world("TestC08", _R["C08"], 500, 30000),
     "C09": _world("TestC09", _R["C09"], 300, 20000),
+    "C10": {
+        "level": "exploration",
+        "rule": _R["C10"] + " | (b) TestC10Hostile: valid export streams (plain and compressed) of generated trees are mutated (swap, drop, duplicate, height +-, version in {negative, MinInt64, 0, > import version, MaxInt64}, nil/empty key or value, value on any node, nil node, hostile key prefix, truncation, wrong import version) or replaced by random ExportNode sequences, fed to Importer / CompressImporter and ended by Commit or Close: no panic, no hang (60 s watchdog = inconclusive), error or commit; unless Commit succeeded a fresh tree on that store must Load() as (0,nil) with no version visible; non-trivial = mutated stream in which >=1 inner node was accepted (stack-rebuild branch). TestC10Big: >10000-node streams (5001-5400 leaves) committed (reference hash, all keys) / closed / failing after the first 10000-node batch was flushed.",
+        "assumptions": _ASSUME + ["ics23/go v0.11.0 verifier (IavlSpec)"],
+        "quick": [{"test": "TestC10", "checks": 300, "shards": 5}, {"test": "TestC10Hostile", "checks": 4000, "shards": 4},
+                  {"test": "TestC10Big", "checks": 3, "shards": 2}],
+        "thorough": [{"test": "TestC10", "checks": 15000, "shards": 8}, {"test": "TestC10Hostile", "checks": 250000, "shards": 6},
+                     {"test": "TestC10Big", "checks": 60, "shards": 2}],
+    },
+    "C11": {
+        "level": "exploration",
+        "rule": "insertion-order profiles (ascending, descending, alternating ends, random with removals, remove-a-contiguous-run to empty subtrees) with interleaved commits, trees up to 300 keys (quick) / 3000 keys (thorough); for the working tree and every version: Height()/Size() equal the reference tree's and satisfy h <= 1.4405*log2(n+2); GetByIndex(i) = i-th sorted pair and GetWithIndex(k) = rank for ALL keys and ranks, insertion rank for absent neighbours, nil for out-of-range ranks (n, n+5, -1); with cache size 0 on a counting storage wrapper, on fresh tree objects: <= 2h+2 storage reads for Get (walk) / Has / GetWithIndex / GetByIndex / Get(absent), <= 10h+10 for GetProof. non-trivial = size >= 8 and >= 1 double rotation in the reference; distinct = sha256 of the op list",
+        "assumptions": _ASSUME + ["storage reads are counted at the KVStore interface (Get/Has calls) with the node cache disabled"],
+        "quick": [{"test": "TestC11", "checks": 120, "shards": 8}],
+        "thorough": [{"test": "TestC11", "checks": 2500, "shards": 16, "env": {"VERIF_TIER": "thorough"}}],
+    },
     "C12": _world("TestC12", _R["C12"], 700, 40000),
-    "C13": _world("TestC13a", _R["C13"], 700, 40000),
+    "C13": {
+        "level": "exploration",
+        "rule": _R["C13"] + " | (b) TestC13b: a reference history of 1-6 versions is written by the independent encoder (two own nonce numberings, reference roots in the 13-byte and the old 9-byte form, empty roots, optionally fast index + label); the library must Load it, report the same versions/contents/hashes/proofs, pass the raw audit and continue 3-20 generated steps (commits, prunes, rollbacks, reopens) with reference hashes; non-trivial = >=1 inner node and >=1 reference or empty root encoded. | (c) TestC13c: valid encodings for MakeNode, MakeLegacyNode, fastnode.DeserializeNode, DecodeBytes/Uvarint/Varint (verif re-export) and the reference-root reader are mutated (byte flips, truncation, splices of hostile varints: max, overflow, 2^62 length) or replaced by random bytes: error-or-value, no panic, < 64 MB allocated per call, successful decodes agree field by field with the independent decoder / encoding/binary; non-trivial = input differs from the valid encoding and is longer than 2 bytes. thorough adds native go fuzz campaigns per decoder.",
+        "assumptions": _ASSUME + ["pinned on-disk layout as restated in harness/codec.go"],
+        "quick": [{"test": "TestC13a", "checks": 500, "shards": 4}, {"test": "TestC13b", "checks": 400, "shards": 4},
+                  {"test": "TestC13c", "checks": 6000, "shards": 4}],
+        "thorough": [{"test": "TestC13a", "checks": 30000, "shards": 6}, {"test": "TestC13b", "checks": 20000, "shards": 6},
+                     {"test": "TestC13c", "checks": 400000, "shards": 4},
+                     {"kind": "fuzz", "test": "FuzzMakeNode", "fuzztime": "120s"}, {"kind": "fuzz", "test": "FuzzMakeLegacyNode", "fuzztime": "90s"},
+                     {"kind": "fuzz", "test": "FuzzDeserializeNode", "fuzztime": "60s"}, {"kind": "fuzz", "test": "FuzzDecodeBytes", "fuzztime": "45s"},
+                     {"kind": "fuzz", "test": "FuzzDecodeVarint", "fuzztime": "30s"}, {"kind": "fuzz", "test": "FuzzDecodeUvarint", "fuzztime": "30s"},
+                     {"kind": "fuzz", "test": "FuzzRootReader", "fuzztime": "120s"}],
+    },
     "C14": _world("TestC14", _R["C14"], 500, 30000),
     "C15": _world("TestC15", _R["C15"], 600, 30000),
 }
